@@ -80,10 +80,12 @@ Fixpoint su_steps_ok (l : list Z) (h : heap) : Prop :=
   end.
 
 (* one step of the first phase of prune_taxa, as HeapOps.prune_taxa folds it over the post-order *)
-Definition prune_taxa_step (taxa : list Z) (on_leaves on_internal : bool) (nd : Z) (h : heap) : hres :=
+(* ne = what a node without parent produces there (AttributeError from None.remove_child, or the
+   SeedNodeDeletionException of a guarded source: the theorems hold for whichever HeapOps.v uses) *)
+Definition prune_taxa_step_e (ne : err) (taxa : list Z) (on_leaves on_internal : bool) (nd : Z) (h : heap) : hres :=
   if ((on_internal && is_internal h nd) || (on_leaves && negb (is_internal h nd)))
      && (match taxon h nd with Some x => memz x taxa | None => false end)
-  then remove_from_parent AttrErr nd h else HOk h.
+  then remove_from_parent ne nd h else HOk h.
 
 (* the condition under which each iteration of a source loop that collapses / splices at the visited
    node coincides with HeapOps.v's step function f: the visited node is not its own child then *)
@@ -98,3 +100,79 @@ Fixpoint steps_ok (f : Z -> heap -> hres) (l : list Z) (h : heap) : Prop :=
 Definition cue_step (thr : Z) (nd : Z) (h : heap) : hres :=
   if (match elen h nd with None => true | Some l => l <=? thr end) && is_internal h nd
   then edge_collapse nd false h else HOk h.
+
+(* ---- resolve_polytomies ---- *)
+(* one iteration of the deterministic branch (the body of HeapOps.resolve_det) *)
+Definition det_step (node : Z) (h : heap) : hres :=
+  match kids h node with
+  | c1 :: c2 :: _ =>
+    let nn1 := next h in
+    let h1 := set_elen nn1 (Some 0) (alloc None None None h) in
+    hdo h2 <- remove_child_plain node c1 h1 ;;
+    hdo h3 <- remove_child_plain node c2 h2 ;;
+    hdo h4 <- add_child nn1 c1 h3 ;;
+    hdo h5 <- add_child nn1 c2 h4 ;;
+    add_child node nn1 h5
+  | _ => HErr IndexErr h
+  end.
+
+(* the source reads node._child_nodes[0] AFTER `nn1 = Node()`, HeapOps.resolve_det before: the same
+   unless `node` is the id the constructor hands out next (never the case for a node of the tree) *)
+Fixpoint det_ok (f : nat) (limit node : Z) (h : heap) : Prop :=
+  match f with
+  | O => True
+  | S n =>
+    if limit <? len (kids h node)
+    then node <> next h /\ match det_step node h with HOk h6 => det_ok n limit node h6 | _ => True end
+    else True
+  end.
+
+(* one attachment of the rng branch (the body of HeapOps.resolve_attach) *)
+Definition attach_step (node next_child next_sib : Z) (h : heap) : hres :=
+  let na := next h in
+  let h1 := alloc None None None h in
+  hdo h2 <-
+    (if Z.eqb next_sib node then
+       let cc := kids h1 node in
+       hdo a1 <- add_child node na h1 ;;
+       hdo a2 <- hfold (fun c h => hdo b <- remove_child_plain node c h ;; add_child na c b) cc a1 ;;
+       add_child node next_child a2
+     else
+       match parent h1 next_sib with
+       | None => HErr AttrErr h1
+       | Some p =>
+         hdo a1 <- add_child p na h1 ;;
+         hdo a2 <- remove_child_plain p next_sib a1 ;;
+         hdo a3 <- add_child na next_sib a2 ;;
+         add_child na next_child a3
+       end) ;;
+  HOk (set_elen na (Some 0) h2).
+
+(* the scripted rng of the generated code is one list of draws: per polytomy the positions
+   rng.sample returned, then one position per rng.choice *)
+Definition flat_script (sc : list (list nat * list nat)) : list (list nat) :=
+  flat_map (fun p => fst p :: map (fun c => [c]) (snd p)) sc.
+
+(* fuel of the generated `while` loops suffices for every polytomy; the script holds exactly one
+   choice per sampled child *)
+Fixpoint rp_ok (fuel : nat) (limit : Z) (nodes : list Z) (script : option (list (list nat * list nat)))
+         (h : heap) : Prop :=
+  match nodes with
+  | [] => True
+  | node :: r =>
+    match script with
+    | None =>
+      (S (length (kids h node)) <= fuel)%nat /\ det_ok (S (length (kids h node))) limit node h /\
+      match resolve_det (S (length (kids h node))) limit node h with
+      | HOk h1 => rp_ok fuel limit r None h1
+      | _ => True
+      end
+    | Some [] => True
+    | Some ((sm, ch) :: sc) =>
+      (length sm < fuel)%nat /\ length ch = length sm /\
+      match resolve_rng limit node sm ch h with
+      | HOk h1 => rp_ok fuel limit r (Some sc) h1
+      | _ => True
+      end
+    end
+  end.
